@@ -47,10 +47,12 @@ def hash_node(
         elif isinstance(child, (ast.FunctionDef, ast.AsyncFunctionDef)):
             names = [child.name]
         else:
+            # Include the type and repr of all values, since hash(1.5) would otherwise be left
+            # out, and since hash(False) == hash("") == hash(0) == hash(0.0).
             things_to_hash.extend(
-                (key, value)
+                (key, type(value).__name__, repr(value))
                 for key, value in child.__dict__.items()
-                if isinstance(value, (str, int))
+                if not isinstance(value, (ast.AST, list))
                 if key not in {"lineno", "end_lineno", "col_offset", "end_col_offset"}
             )
         for name in names:
